@@ -100,6 +100,7 @@ func runCCHammerChild(r *Run) {
 		mu.Unlock()
 		// the code carries the nonce of its login (the "provider" remembers what it was asked)
 		nonce := strings.TrimPrefix(code, "code-for-")
+		time.Sleep(2 * time.Millisecond) // an exchange takes a moment: overlapping callbacks really overlap
 		b, _ := json.Marshal(map[string]any{"token_type": "Bearer", "expires_in": 600, "access_token": "at-" + nonce,
 			"id_token": mintToken(tokSpec{Mode: "good", Exp: time.Now().Unix() + 600, Aud: "cc-client", Nonce: nonce, Sub: "u-" + nonce, Extra: nonce})})
 		_, _ = w.Write(b)
@@ -203,6 +204,37 @@ func runCCHammerChild(r *Run) {
 				keep = append(keep, held{r1, show1, "login redirect"})
 				// the provider sends the browser back with a code that belongs to this login
 				code := "code-for-" + nonce
+				// code injection, timed to overlap with the victim's own callback: an attacker who has learnt this login's code
+				// (it travels through the front channel) presents it under a login of his own - his own cookie, his own state.
+				// The ID token the provider hands out for that code carries the VICTIM's nonce, so the attacker's callback must
+				// fail and his session must stay unauthenticated, however the two exchanges interleave.
+				attacked := i%4 == 1
+				var awg sync.WaitGroup
+				if attacked {
+					ra, err := filter.Check(context.Background(), httpReq("https", "app.example.com", "/attacker/"+me, "", nil))
+					loca, _ := hdrValue(ra.GetDeniedResponse().GetHeaders(), "location")
+					scka, _ := hdrValue(ra.GetDeniedResponse().GetHeaders(), "set-cookie")
+					ua, _ := url.Parse(loca)
+					csa := (&http.Response{Header: http.Header{"Set-Cookie": []string{scka}}}).Cookies()
+					if err == nil && ua != nil && len(csa) == 1 {
+						acookie := csa[0].Name + "=" + csa[0].Value
+						awg.Add(1)
+						go func() {
+							defer awg.Done()
+							count("injected-callback")
+							rb, err := filter.Check(context.Background(), httpReq("https", "app.example.com", "/callback?code="+code+"&state="+ua.Query().Get("state"), "", map[string]string{"cookie": acookie}))
+							if locb, _ := hdrValue(rb.GetDeniedResponse().GetHeaders(), "location"); err == nil && locb == "https://app.example.com/attacker/"+me {
+								violate("a callback that presented ANOTHER login's authorization code under its own session was completed (the ID token it was given carries the other session's nonce)",
+									map[string]any{"victim_login": me, "answer": showResp(rb, err)})
+							}
+							rc, err := filter.Check(context.Background(), httpReq("https", "app.example.com", "/attacker/"+me, "", map[string]string{"cookie": acookie}))
+							if err == nil && rc != nil && rc.GetStatus().GetCode() == 0 {
+								violate("a session was authenticated with tokens that were validated for ANOTHER session: it presented that session's authorization code while the other callback was in progress",
+									map[string]any{"victim_login": me, "answer": showResp(rc, err)})
+							}
+						}()
+					}
+				}
 				r2, err := filter.Check(context.Background(), httpReq("https", "app.example.com", "/callback?code="+code+"&state="+state, "", map[string]string{"cookie": cs[0].Name + "=" + sid}))
 				count("callback")
 				recheck()
@@ -223,6 +255,21 @@ func runCCHammerChild(r *Run) {
 					exchanges = exchanges[2000:]
 				}
 				mu.Unlock()
+				awg.Wait()
+				if attacked {
+					// the injected callback may have reached the token endpoint too (with the attacker's verifier): what matters
+					// is that this login's own exchange happened, once, with its own verifier
+					mu.Lock()
+					n, verifier = 0, ""
+					for _, e := range exchanges {
+						hh := sha256.Sum256([]byte(e.verifier))
+						if e.code == code && base64.RawURLEncoding.EncodeToString(hh[:]) == challenge {
+							n++
+							verifier = e.verifier
+						}
+					}
+					mu.Unlock()
+				}
 				h := sha256.Sum256([]byte(verifier))
 				if n != 1 || base64.RawURLEncoding.EncodeToString(h[:]) != challenge {
 					violate("the token endpoint did not receive this login's code exactly once together with the PKCE verifier of this login's redirect",
